@@ -17,35 +17,78 @@ Import ListNotations.
 
 (* ---- running a peer to quiescence: first enabled internal event of the first session
         that has one, until none is left ---- *)
-Fixpoint first_enabled (s : sess) (l : list sevent) : option sevent :=
-  match l with
-  | [] => None
-  | e :: r => if enabled_cfg fixed s e then Some e else first_enabled s r
+(* user handlers of the sessions in [held] park inside the handler (K1) *)
+Definition parked_step (s : sess) (e : sevent) : bool :=
+  match e with
+  | EHandler j _ _ =>
+      match nth_error (hctxs s) j with
+      | Some h => match k_pc h, k_kind h with
+                  | K1, KCall | K1, KPush => true
+                  | _, _ => false
+                  end
+      | None => false
+      end
+  | _ => false
   end.
 
-Fixpoint first_session (ss : list sess) (n : nat) : option (nat * sevent) :=
+Fixpoint first_enabled (hold : bool) (s : sess) (l : list sevent) : option sevent :=
+  match l with
+  | [] => None
+  | e :: r => if enabled_cfg fixed s e && negb (hold && parked_step s e) then Some e else first_enabled hold s r
+  end.
+
+Fixpoint mem_nat (x : nat) (l : list nat) : bool :=
+  match l with [] => false | y :: r => Nat.eqb x y || mem_nat x r end.
+
+(* [waits]: (n, m) = the accepting goroutine of session n is parked in the Close() of the
+   session m it displaced; its read loop is not started before that closeLocked has ended *)
+Definition start_withheld (all : list sess) (waits : list (nat * nat)) (n : nat) (s : sess) : bool :=
+  match rd s with
+  | RNone => existsb (fun w => Nat.eqb (fst w) n &&
+                               match nth_error all (snd w) with
+                               | Some m => match cl m with CIdle => false | _ => true end
+                               | None => false end) waits
+  | _ => false
+  end.
+
+Definition is_reader (e : sevent) : bool := match e with EReader _ => true | _ => false end.
+
+Fixpoint first_enabled_w (hold nostart : bool) (s : sess) (l : list sevent) : option sevent :=
+  match l with
+  | [] => None
+  | e :: r => if enabled_cfg fixed s e && negb (hold && parked_step s e) && negb (nostart && is_reader e)
+              then Some e else first_enabled_w hold nostart s r
+  end.
+
+Fixpoint first_session_w (all : list sess) (held : list nat) (waits : list (nat * nat)) (ss : list sess) (n : nat) : option (nat * sevent) :=
   match ss with
   | [] => None
-  | s :: r => match first_enabled s (cand s) with
+  | s :: r => match first_enabled_w (mem_nat n held) (start_withheld all waits n s) s (cand s) with
               | Some e => Some (n, e)
-              | None => first_session r (S n)
+              | None => first_session_w all held waits r (S n)
               end
   end.
 
-Fixpoint quiesce (fuel : nat) (p : peer) : peer :=
+Fixpoint quiesce_w (held : list nat) (waits : list (nat * nat)) (fuel : nat) (p : peer) : peer :=
   match fuel with
   | O => p
   | S f =>
-      match first_session (sessions p) 0 with
+      match first_session_w (sessions p) held waits (sessions p) 0 with
       | None => p
-      | Some (n, e) => match pstep p (PSess n e) with Some p' => quiesce f p' | None => p end
+      | Some (n, e) => match pstep p (PSess n e) with Some p' => quiesce_w held waits f p' | None => p end
       end
   end.
 
+Definition quiesce_h (held : list nat) := quiesce_w held [].
+
+Definition quiesce := quiesce_h [].
+
 Definition FUEL := 4000%nat.
 
-Definition pdo (p : peer) (e : pevent) : peer :=
-  match pstep p e with Some p' => quiesce FUEL p' | None => p end.
+Definition pdo_h (held : list nat) (p : peer) (e : pevent) : peer :=
+  match pstep p e with Some p' => quiesce_h held FUEL p' | None => p end.
+
+Definition pdo := pdo_h [].
 
 Definition class_of (c : cstat) : val :=
   match c with
@@ -285,7 +328,7 @@ Definition status_sym (x : status) : val :=
 Fixpoint run_all (fuel : nat) (s : sess) : sess :=
   match fuel with
   | O => s
-  | S f => match first_enabled s (cand s) with
+  | S f => match first_enabled false s (cand s) with
            | Some e => match sstep s e with Some (s', _) => run_all f s' | None => s end
            | None => s
            end
@@ -304,10 +347,65 @@ Definition run_race_case (pending : N) (sched : list val) : val :=
             VL (map (fun c => if c_dones c =? 0 then vsym "pending" else class_of (c_stat c)) (calls s3));
             VN (N.of_nat (fold_right (fun c a => (c_sends c + a)%nat) 0%nat (calls s3))) ] ].
 
+(* ---- overlap mode: accepts that stay parked inside the index insert while other accepts
+        run; handlers parked on chosen sessions ----
+   EV = (sacch nID) | (shold nSESS) | (srel nSESS) | any history event                  *)
+Fixpoint remove_nat (x : nat) (l : list nat) : list nat :=
+  match l with [] => [] | y :: r => if Nat.eqb x y then remove_nat x r else y :: remove_nat x r end.
+
+Definition pdo_w (held : list nat) (waits : list (nat * nat)) (p : peer) (e : pevent) : peer :=
+  match pstep p e with Some p' => quiesce_w held waits 4000 p' | None => p end.
+
+Definition parked_accept (p : peer) (waits : list (nat * nat)) (n : nat) : bool :=
+  match get_sess p n with Some s => start_withheld (sessions p) waits n s | None => false end.
+
+Fixpoint run_overlap (p : peer) (held : list nat) (waits : list (nat * nat)) (ids : list N) (evs : list val) : option (list val) :=
+  match evs with
+  | [] => Some []
+  | ev :: r =>
+      let step :=
+        match ev with
+        | VL [VS k; VN x] =>
+            if bytes_eqb k (str "acch") then
+              let n := length (sessions p) in
+              let waits' := match idx_get (pindex p) x with Some m => (n, m) :: waits | None => waits end in
+              Some (pdo_w held waits' p (PAccept x true), held, waits')
+            else if bytes_eqb k (str "hold") then
+              let n := N.to_nat x in
+              match get_sess p n with
+              | Some s =>
+                  (* the frame is sent only to a session that is live and whose accept has returned *)
+                  if live s && conn s && negb (parked_accept p waits n) then
+                    let held' := n :: held in
+                    Some (pdo_w held' waits p (PSess n (EFrame FrPush)), held', waits)
+                  else Some (p, held, waits)
+              | None => None
+              end
+            else if bytes_eqb k (str "rel") then
+              let held' := remove_nat (N.to_nat x) held in
+              Some (quiesce_w held' waits 4000 p, held', waits)
+            else if bytes_eqb k (str "close") then Some (pdo_w held waits p (PSess (N.to_nat x) EClose), held, waits)
+            else None
+        | _ => None
+        end in
+      match step with
+      | None => None
+      | Some (p', held', waits') =>
+          let ids' := match ev with
+                      | VL [VS k; VN x] => if bytes_eqb k (str "acch") && negb (mem_N x ids) then ids ++ [x] else ids
+                      | _ => ids end in
+          match run_overlap p' held' waits' ids' r with
+          | Some t => Some (VL (vsym "none" :: peer_obs p' ids') :: t)
+          | None => None
+          end
+      end
+  end.
+
 Definition run (inp : val) : option val :=
   match inp with
   | VL [VS k; VL evs] =>
-      if bytes_eqb k (str "hist") then option_map VL (run_hist peer0 [] evs) else None
+      if bytes_eqb k (str "hist") then option_map VL (run_hist peer0 [] evs)
+      else if bytes_eqb k (str "overlap") then option_map VL (run_overlap peer0 [] [] [] evs) else None
   | VL [VS k; VN pending; VL sched] =>
       if bytes_eqb k (str "race") then Some (run_race_case pending sched) else None
   | _ => None
